@@ -60,7 +60,8 @@ class SimFile:
         self.overlay: list[tuple[int, int, int]] = []  # (activation_seq, offset, xor/flip as (kind,value))
         self._ov: dict[int, list] = {}
         self.trunc_at: int | None = None  # fault: visible length
-        self.ledger = {"calls": 0, "req": 0, "ret": 0, "data": 0}
+        self.ledger = {"calls": 0, "req": 0, "ret": 0, "data": 0, "raw": 0}
+        self._raw_served = 0  # bytes of literal extents (headers, tables, compressed blobs) handed out by pread
         self._pat_served = 0  # bytes of guest-data extents (content function) handed out by pread, any caller
         self.mutations = 0
         self._version = 0  # bumped by every content/length change
@@ -147,6 +148,8 @@ class SimFile:
                 chunk = s.gen(pos - a, take)
                 if type(s) is PatSrc or (type(s) is _Shift and type(s.src) is PatSrc):
                     self._pat_served += take
+                else:
+                    self._raw_served += take
                 if len(chunk) < take:
                     chunk = chunk + bytes(take - len(chunk))
                 out.append(chunk)
@@ -331,11 +334,13 @@ class SimHandle:
         if n > self.max_req:
             self.max_req = n
         d0 = self._f._pat_served
+        r0 = self._f._raw_served
         buf = self._f.pread(self._pos, n, self._seq())
         self._pos += len(buf)
         self.bytes_ret += len(buf)
         led = self._f.ledger
         led["data"] += self._f._pat_served - d0
+        led["raw"] += self._f._raw_served - r0
         led["calls"] += 1
         led["req"] += n
         led["ret"] += len(buf)
